@@ -101,7 +101,7 @@ PROPS = {
         "rule": "planted-solution systems: random geometry X*, 1..15 constraints of any of the 23 kinds sharing entities with parameters derived from X*, anchored or free-floating, guesses X* + delta with |delta| <= 1e-2*scale; the oracle demands Ok, all satisfied, <= 8 iterations and |x_out - x0| <= 1.5|x0 - X*| + 1e-9, excluding (by the oracle) degenerate / ill-conditioned plants and branch switches inside the ball",
     },
     "C04": {
-        "modules": ["Ezpz.Properties.C04", "Ezpz.Real.GaussNewton", "Ezpz.Real.GaussNewton2", "Ezpz.Real.GaussNewton3", "Ezpz.Real.Linear"],
+        "modules": ["Ezpz.Properties.C04", "Ezpz.Real.GaussNewton", "Ezpz.Real.GaussNewton2", "Ezpz.Real.GaussNewton3", "Ezpz.Real.Linear", "Ezpz.Real.LinearConvergence"],
         "suites": [
             {"suite": "kernels", "quick": (150,), "thorough": (3000,)},
             {"suite": "trace", "quick": (400, "linear,planted,contra,conflict"), "thorough": (6000, "linear,planted,contra,conflict,prio,caps")},
@@ -109,7 +109,7 @@ PROPS = {
         "oracles": [
             {"bin": "oracle_c04.py", "python": True, "quick": ("{seed}", "400"), "thorough": ("{seed}", "8000")},
         ],
-        "partial": ["the 1e-4*scale closeness of the f64 result to the exact minimum-norm least-squares point (effect of lambda = 1e-9, of stopping early, of rounding) is not proved: the theorems give the exact algebra (one step is the Tikhonov minimiser; displacement stays in range(A^T); a stationary point with displacement in range(A^T) is the unique nearest least-squares point; the last step d certifies stationarity up to lambda*|d|); the quantitative convergence in <= 35 rounds is left to the exact-rational oracle on the real code",
+        "partial": ["the 1e-4*scale closeness of the f64 result to the exact minimum-norm least-squares point (effect of lambda = 1e-9, of stopping early, of rounding) is not proved: the theorems give the exact algebra (one step is the Tikhonov minimiser; displacement stays in range(A^T); a stationary point with displacement in range(A^T) is the unique nearest least-squares point; the last step d certifies stationarity up to lambda*|d|); in exact arithmetic a consistent system converges geometrically with factor lambda/(c+lambda) per round to the solution nearest the guess, c a lower bound of |Az|^2/|z|^2 on range(A^T) (linear_consistent_converges); that the f64 iteration gets there within 35 rounds and stops is left to the exact-rational oracle on the real code",
                     "untouched_var_fixed is stated for a solver answer whose component for the variable is a neutral element of +; that the exact step has this component 0 for a zero Jacobian column is untouched_var_step_zero (reals); that faer's LU returns exactly 0.0 there is checked on every recorded trace"],
         "assumptions": ["the LU answer is a parameter; IsStep characterises it over the reals"],
         "rule": "linear systems over up to 8 points with dyadic-rational parameters and guesses (consistent, redundant, contradictory, rank-deficient) solved by the real code and compared with x* = x0 + pinv(A)(b - A x0) computed exactly (sympy rationals); systems of any kind with extra unmentioned variables must return those at their guesses bit for bit",
